@@ -93,6 +93,16 @@ Fixpoint check_connection_identity (cns csa : string) (ids : list string) : opti
       end
   end.
 
+(* model.GetProxyConfigNamespace: Metadata.Namespace if set, else the first label of the DNS domain of
+   the node id when it has at least two labels, else "" *)
+Definition dot : ascii := "."%char.
+Definition config_namespace (meta_ns dns_domain : string) : string :=
+  if negb (String.eqb meta_ns "") then meta_ns
+  else match split_on dot dns_domain with
+       | a :: _ :: _ => a
+       | _ => ""
+       end.
+
 (* DiscoveryServer.authorize for a connection with a fresh proxy (VerifiedIdentity nil before):
    [ids = None] is the nil identity list of an unauthenticated stream.  *)
 Inductive auth_result := AuthDenied | AuthAccepted (verified : option identity).
@@ -403,6 +413,20 @@ Fixpoint run_cache (w : world) (c : cache) (ops : list op) : cache :=
   | OClear ks :: rest => run_cache w (cache_clear ks c) rest
   end.
 
+(* the key set of the cache after each op of a history (XdsCache.Keys(SDSType)) *)
+Definition step_cache (w : world) (c : cache) (o : op) : cache :=
+  match o with
+  | OGen p names r => snd (generate w c p names r)
+  | OClearAll => []
+  | OClear ks => cache_clear ks c
+  end.
+
+Fixpoint run_keys (w : world) (c : cache) (ops : list op) : list (list string) :=
+  match ops with
+  | [] => []
+  | o :: rest => let c' := step_cache w c o in map fst c' :: run_keys w c' rest
+  end.
+
 (* ---------------------------------------------------------------- the specification *)
 
 (* [covers rn ns name]: the verified reference rn is a kubernetes-gateway:// name of secret ns/name *)
@@ -451,3 +475,60 @@ Definition wf_world (w : world) : bool := forallb no_slash (clusters w).
 Definition wf_proxy (p : proxy) : bool :=
   no_slash (p_pkp p) && match verified p with Some i => no_slash (id_ns i) | None => true end.
 Definition wf_op (o : op) : bool := match o with OGen p _ _ => wf_proxy p | _ => true end.
+
+(* ---------------------------------------------------------------- kube/secrets.go: CredentialsController.Authorize *)
+
+Definition colon : ascii := ":"%char.
+
+(* serviceaccount.MakeUsername(namespace, name) *)
+Definition mk_username (ns sa : string) : string := "system:serviceaccount:" ++ ns ++ String colon sa.
+
+(* The RBAC backend as data: [grants] = (namespace, service account) pairs allowed to list secrets in
+   that namespace.  A SubjectAccessReview {User: user, Verb: list, Resource: secrets, Namespace: attr_ns}
+   is allowed iff user is the user name of a granted pair of that namespace. *)
+Definition sar_allowed (grants : list (string * string)) (user attr_ns : string) : bool :=
+  existsb (fun g => String.eqb user (mk_username (fst g) (snd g)) && String.eqb attr_ns (fst g)) grants.
+
+(* authorizationCache inside one TTL window (entries expire after 1 min / 5 min; time is not modelled) *)
+Definition acache := list (string * bool).
+Fixpoint acache_get (u : string) (ac : acache) : option bool :=
+  match ac with
+  | [] => None
+  | (u', b) :: r => if String.eqb u u' then Some b else acache_get u r
+  end.
+
+(* Authorize(serviceAccount, namespace): the cached answer for the user if any, else a
+   SubjectAccessReview for (user, list secrets in namespace) whose outcome is cached *)
+Definition kube_authorize (grants : list (string * string)) (ac : acache) (sa ns : string) : bool * acache :=
+  let user := mk_username ns sa in
+  match acache_get user ac with
+  | Some b => (b, ac)
+  | None => let b := sar_allowed grants user ns in (b, (user, b) :: ac)
+  end.
+
+(* histories: RBAC changes and Authorize calls on one controller *)
+Inductive kop := KSet (grants : list (string * string)) | KCall (sa ns : string).
+
+Fixpoint kube_run (grants : list (string * string)) (ac : acache) (ops : list kop) : list bool :=
+  match ops with
+  | [] => []
+  | KSet g :: rest => kube_run g ac rest
+  | KCall sa ns :: rest => let '(b, ac') := kube_authorize grants ac sa ns in b :: kube_run grants ac' rest
+  end.
+
+Definition kcalls (ops : list kop) : list (string * string) :=
+  flat_map (fun o => match o with KCall sa ns => [(sa, ns)] | KSet _ => [] end) ops.
+
+(* every grant table in force at some point of the history *)
+Fixpoint ever_granted (grants : list (string * string)) (ops : list kop) : list (string * string) :=
+  match ops with
+  | [] => grants
+  | KSet g :: rest => grants ++ ever_granted g rest
+  | KCall _ _ :: rest => ever_granted grants rest
+  end.
+
+Fixpoint no_colon (s : string) : bool :=
+  match s with
+  | EmptyString => true
+  | String a r => negb (Ascii.eqb a colon) && no_colon r
+  end.
